@@ -119,6 +119,16 @@ def make_loop_prog(rng, rng_spec, kind, nest=1, bounds_via_vars=False):
         prog.append(["for", "i", rng_spec,
                      [["for", "j", ["list", rng.sample([0, 1, 2, 3], k=rng.randint(0, 3))],
                        [["for", "k", ["range", 0, rng.randint(1, 3), None], inner]]]]])
+    if nest == 1 and rng.random() < 0.3:
+        # a top-level int constant with the iterator's name, declared before or after the loop: inside the body the
+        # name is the iterator, outside it is the constant
+        decl = ["int", "i", ["n", rng.choice([6, 50, -9, 1000])]]
+        pos = next(k for k, s_ in enumerate(prog) if s_[0] == "for")
+        if rng.random() < 0.6:
+            prog.insert(pos, decl)
+        else:
+            prog.append(decl)
+        prog.append(["sig", "afteri", ["p", ["b", "+", ["v", "x"], ["b", "*", ["v", "i"], ["n", 2]]], types.fresh()]])
     if shadow:
         outer = {"local": ["v", "tmp"], "literal": ["v", "kv"], "intvar": ["v", "kk"]}[kind]
         prog.append(["sig", "after", ["p", ["b", "+", ["v", "x"], outer] if kind == "intvar" else ["b", "+", outer, ["n", 1]], types.fresh()]])
